@@ -19,6 +19,103 @@ use crate::sched;
 use crate::vmh;
 use serde_json::{json, Value};
 
+use std::sync::atomic::{AtomicU64, Ordering as AtOrd};
+use steel::steel_vm::register_fn::RegisterFn;
+
+/// One operation on a shared global, stamped at invocation and at return with
+/// the simulation's global event sequence number (only the token holder runs,
+/// so the sequence is the real order of these events).
+#[derive(Clone, Debug)]
+struct LinOp {
+    write: bool,
+    global: usize,
+    value: i64,
+    begin: u64,
+    end: u64,
+    thread: usize,
+}
+
+static LIN_SEQ: AtomicU64 = AtomicU64::new(1);
+static LIN_HIST: std::sync::Mutex<Vec<LinOp>> = std::sync::Mutex::new(Vec::new());
+
+fn lin_begin(kind: isize, global: isize, value: isize) -> isize {
+    let mut h = match LIN_HIST.lock() {
+        Ok(g) => g,
+        Err(p) => p.into_inner(),
+    };
+    h.push(LinOp {
+        write: kind == 0,
+        global: global as usize,
+        value: value as i64,
+        begin: LIN_SEQ.fetch_add(1, AtOrd::SeqCst),
+        end: u64::MAX,
+        thread: sched::current().unwrap_or(99),
+    });
+    (h.len() - 1) as isize
+}
+
+fn lin_end(id: isize, value: isize) {
+    let mut h = match LIN_HIST.lock() {
+        Ok(g) => g,
+        Err(p) => p.into_inner(),
+    };
+    if let Some(op) = h.get_mut(id as usize) {
+        op.end = LIN_SEQ.fetch_add(1, AtOrd::SeqCst);
+        if !op.write {
+            op.value = value as i64;
+        }
+    }
+}
+
+/// Register linearizability for histories in which every write has a unique
+/// value: a read must return a write that began before the read ended, and no
+/// other write may lie entirely between that write and the read (then the read
+/// is stale: an assignment completed by one thread was not seen afterwards).
+fn check_register_histories(nglob: usize) {
+    let h = match LIN_HIST.lock() {
+        Ok(g) => g.clone(),
+        Err(p) => p.into_inner().clone(),
+    };
+    let mut reads = 0u64;
+    let mut concurrent = 0u64;
+    for g in 0..nglob {
+        let mut writes: Vec<LinOp> = vec![LinOp { write: true, global: g, value: 0, begin: 0, end: 0, thread: 0 }];
+        writes.extend(h.iter().filter(|o| o.write && o.global == g).cloned());
+        for r in h.iter().filter(|o| !o.write && o.global == g && o.end != u64::MAX) {
+            reads += 1;
+            let w = match writes.iter().find(|w| w.value == r.value) {
+                Some(w) => w,
+                None => report::violation(
+                    "C15/global-read/value-never-written",
+                    format!("t{} read g{} = {} which nobody wrote", r.thread, g, r.value),
+                ),
+            };
+            if w.begin > r.end {
+                report::violation(
+                    "C15/global-read/value-from-the-future",
+                    format!("t{} read g{} = {} at [{},{}], the write began at {}", r.thread, g, r.value, r.begin, r.end, w.begin),
+                );
+            }
+            if w.end > r.begin {
+                concurrent += 1;
+            }
+            for w2 in writes.iter() {
+                if w2.value != w.value && w2.end != u64::MAX && w.end < w2.begin && w2.end < r.begin {
+                    report::violation(
+                        &format!("C15/stale-global-read/{}", *TIER.lock().unwrap()),
+                        format!(
+                            "t{} read g{} = {} during [{},{}], but t{} had completed (set! g{} {}) during [{},{}], entirely after the write of {} by t{} during [{},{}]: a completed assignment was not seen by a later read",
+                            r.thread, g, r.value, r.begin, r.end, w2.thread, g, w2.value, w2.begin, w2.end, w.value, w.thread, w.begin, w.end
+                        ),
+                    );
+                }
+            }
+        }
+    }
+    report::probe_n("lin.reads-checked", reads);
+    report::probe_n("lin.reads-concurrent-with-their-write", concurrent);
+}
+
 pub struct Threads {
     pub prop: &'static str,
     pub label: &'static str,
@@ -96,11 +193,11 @@ fn build(w: &Value) -> Built {
                 "valloc" => (format!("(valloc {})", a), sum_to(a).to_string()),
                 "set" => {
                     let g = op[1].as_u64().unwrap() as usize % nglob;
-                    (format!("(begin (set! g{} {}) 0)", g, op[2]), "0".into())
+                    (format!("(let ((lt (lin-b 0 {g} {v}))) (set! g{g} {v}) (lin-e lt {v}) 0)", g = g, v = op[2]), "0".into())
                 }
                 "read" => {
                     let g = op[1].as_u64().unwrap() as usize % nglob;
-                    (format!("(check-read g{} {})", g, allowed(g)), "0".into())
+                    (format!("(let* ((lt (lin-b 1 {g} 0)) (lv g{g})) (lin-e lt lv) (check-read lv {a}))", g = g, a = allowed(g)), "0".into())
                 }
                 "send" => {
                     let e = format!("(begin (channel/send tx (list {} {})) 0)", k, seq);
@@ -156,7 +253,7 @@ fn build(w: &Value) -> Built {
     let mut gl = String::new();
     for g in 0..nglob {
         let lw: Vec<String> = if last_write[g].is_empty() { vec!["0".into()] } else { last_write[g].iter().map(|x| x.to_string()).collect() };
-        gl.push_str(&format!(" (check-read g{} '({}))", g, lw.join(" ")));
+        gl.push_str(&format!(" (let* ((lt (lin-b 1 {g} 0)) (lv g{g})) (lin-e lt lv) (check-read lv '({l})))", g = g, l = lw.join(" ")));
     }
     src.push_str(&format!("(list main-result joined (list{}) (unbox cnt) (list{}))\n", seqs, gl));
     // expected rendering
@@ -190,6 +287,9 @@ fn gen_workload(rng: &mut Rng, prop: &str, thorough: bool) -> Value {
     // bias: C15 runs want world stops, C16 runs want blocking
     if prop == "C15" && !kinds.contains(&"set") && rng.chance(2, 3) {
         kinds.push("set");
+    }
+    if prop == "C15" && kinds.contains(&"set") && !kinds.contains(&"read") && rng.chance(2, 3) {
+        kinds.push("read");
     }
     if prop == "C16" && !kinds.contains(&"send") && rng.chance(1, 2) {
         kinds.push("send");
@@ -364,6 +464,8 @@ impl Scenario for Threads {
         if let Err(e) = vmh::eval(&mut engine, PRELUDE) {
             report::harness_error(format!("prelude failed: {}", e));
         }
+        engine.register_fn("lin-b", lin_begin);
+        engine.register_fn("lin-e", lin_end);
         vmh::set_yield_at_dispatch(true);
         vmh::set_context(*TIER.lock().unwrap());
         let res = vmh::eval(&mut engine, &built.src);
@@ -391,6 +493,7 @@ impl Scenario for Threads {
         if stale > 0 {
             report::probe_n("stale-slot-touched", stale);
         }
+        check_register_histories(w["globals"].as_u64().unwrap_or(2) as usize);
     }
 
     fn shrink(&self, w: &Value) -> Vec<Value> {
